@@ -10,7 +10,8 @@ Subsets(S) == {T \in SUBSET S : Cardinality(T) \in SUBSIZES}
 RecSets == UNION {Subsets(FamAsc[f]) \cup Subsets(FamDesc[f]) : f \in Family}
 Cases == {x \in ScaleCases : x.t \in TonicsOf(x.c)} \cup
          {[kind |-> "eq", a |-> [c |-> a[1], t |-> a[2], n |-> a[3]], b |-> [c |-> b[1], t |-> b[2], n |-> b[3]]] : a \in EqPool, b \in EqPool} \cup
-         {[kind |-> "rec", notes |-> SetToSeq(S)] : S \in RecSets}
+         {[kind |-> "rec", notes |-> SetToSeq(S)] : S \in RecSets} \cup
+         {[kind |-> "rec", notes |-> RefAsc(f[1], f[2], 2)] : f \in Family} \cup {[kind |-> "rec", notes |-> RefDesc(f[1], f[2], 1) \o RefDesc(f[1], f[2], 1)] : f \in Family}
 VARIABLE done
 Init == done = ndJsonSerialize(IOEnv.OUT, SetToSeq(Cases))
 Next == FALSE /\ done' = done
